@@ -426,8 +426,19 @@ def zst_extra(tier):
     return [S("dbg", "zst", "--ops", 1000 if tier == "quick" else 50000), S("rel", "zst", "--ops", 1000 if tier == "quick" else 50000)]
 
 
-for _p in ("C01", "C03", "C07", "C08", "C09", "C11"):
+for _p in ("C01", "C02", "C03", "C07", "C08", "C09", "C11"):
     with_jobs(_p, zst_extra)
+
+# C17: the byte-stream traits are operations too (write, write_all, read, read_exact, consume, flush
+# and Extend<&u8> must not allocate)
+with_jobs("C17", lambda tier: [S("dbg", "io", "--n", ns(0, 3), "--depth", q(tier, 2, 3)), S("rel", "io", "--n", "4,5,8", "--depth", 2),
+                               S("dbg", "io_random", "--n", "5,16,61,1000", "--ops", q(tier, 4000, 100000), "--emit-distinct", 1)])
+
+# C13: Debug / Hash / == / cmp of a buffer against a differently laid out equal buffer inside the
+# sweep and the random histories (large capacities: Debug of long buffers)
+with_jobs("C13", lambda tier: [S("dbg", "sweep", "--n", ns(0, q(tier, 3, 5)), "--opfilter", "debug_fmt,hash,eq,cmp"),
+                               S("rel", "random", "--n", "8,16,61,1000", "--ops", q(tier, 6000, 100000), "--emit-distinct", 1),
+                               S("dbg", "random", "--n", "61,1000", "--ops", q(tier, 3000, 50000), "--emit-distinct", 1)])
 
 def random_fault_jobs(tier):
     ops = 3000 if tier == "quick" else 80000
